@@ -23,7 +23,7 @@ Init == /\ tpos = 1 /\ memo = <<>> /\ insts = <<>> /\ tfailed = {} /\ tnfail = 0
         /\ tstats = [constructs |-> 0, evals |-> 0, repeats |-> 0, keys |-> 0]
 
 Note(e, f) ==
-  /\ tfailed' = IF Cardinality(tfailed) < 40 THEN tfailed \cup {<<e.tid, e.id, cl>> : cl \in f} ELSE tfailed
+  /\ tfailed' = tfailed \cup {<<e.tid, e.id, cl>> : cl \in {c2 \in f : Cardinality({x \in tfailed : x[3] = c2}) < 8}}
   /\ tnfail' = tnfail + Cardinality(f)
 
 InBox(p, lo, up) == Len(p) = Len(lo) /\ Len(p) = Len(up) /\ \A k \in 1..Len(p) : QLeq(lo[k], p[k]) /\ QLeq(p[k], up[k])
